@@ -87,6 +87,11 @@ CLAIMED["C19"] = (
     COMMON_TRUST + " database/sql is external: transaction isolation (what makes the step atomic under concurrent Update calls) is assumed, as is that a later read returns the last committed bytes; proof.VerifyConsistency is taken as the definition of 'genuine extension'; signature validity is C05's subject; interleavings of concurrent callers are not modelled.",
 )
 
+CLAIMED["C16"] = (
+    "Deductive proof of the sequential core of every component of the scan, each as its own unit (function literals included): the range generator sends only non-empty ranges of at most one batch, each starting exactly where the previous one ended, the first at StartIndex, none reaching past the current end, and it waits for a strictly bigger tree exactly when the cursor has reached the end (continuous mode), so the ranges tile [StartIndex, EndIndex) without gap or repeat; a fetch worker asks, per range, for exactly the undelivered part [cursor, end], hands each reply to the callback as the batch starting at the cursor with exactly the entries received, and advances the cursor by exactly that many, leaving the range only with the cursor just past its end (for logs returning between one and the number of entries asked for); Prepare clamps EndIndex to the tree size; the scanner's flattening step gives entry i of a batch the index Start+i in order; each matcher worker processes exactly the entry it received; and for an entry the matcher selects exactly one of the certificate / precertificate callbacks is called, at one call site outside any loop, with the raw entry decoded from that index and leaf. The statement's 'exactly once' then follows by composing these per-unit facts under Go's channel semantics (each message is received by exactly one worker).",
+    COMMON_TRUST + " Not decided here, by the nature of the technique: goroutine interleavings, termination, Stop/cancellation timing, the back-off's real-time behaviour and data races (the per-unit proofs assume that state shared between goroutines is only what the contracts name: the Fetcher's client field never changes, captured variables are assigned only before the literal is created — both checked syntactically). Assumed: the log client's replies carry between one and the requested number of entries and tree sizes fit an int64; backoff.Retry returns nil exactly when the last call of the function it was given returned nil; a matcher may modify the leaf it is shown (the callback receives what was decoded after matching).",
+)
+
 NOT_YET = "contracts for this property are not yet discharged by the generator in this revision; no other technique is substituted"
 NOT_APPLICABLE = {}
 
